@@ -144,6 +144,14 @@ func (e *Evidence) write(c *Ctx) error {
 	cov["map_order_sites"] = sites
 	cov["map_order_blind_spots"] = blind
 	for k, v := range e.Extra {
+		if m, ok := v.(map[string]bool); ok {
+			keys := sortedKeys(m)
+			if len(keys) > 40 {
+				keys = keys[:40]
+			}
+			cov[k] = map[string]interface{}{"distinct": len(m), "examples": keys}
+			continue
+		}
 		cov[k] = v
 	}
 	doc := map[string]interface{}{
